@@ -1,5 +1,5 @@
 (* C02sim_a -- per-state simulation lemmas (M_tok state method vs S_tok), see Proofs/C02sim.v and C02simtac.v.
-   Each lemma:  R m s -> st m = X -> wk m = true -> covered m = true -> simok s (step_X m). *)
+   Each lemma:  R m s -> st m = X -> wk m = true -> plain m = true -> simok s (step_X m). *)
 From Coq Require Import NArith List Bool Arith Lia ZifyBool ZifyN.
 From Verif Require Import Sx Str.
 From Verif.Gen Require Import Entities Tokenizer.
@@ -9,15 +9,15 @@ From Verif.Proofs Require Import C02a C02dict C08 C02sim C02simtac.
 Import ListNotations.
 Local Open Scope N_scope.
 
-Lemma sim_bogusDoctypeState : forall m s, R m s -> st m = bogusDoctypeState -> wk m = true -> covered m = true -> simok s (step_bogusDoctypeState m).
+Lemma sim_bogusDoctypeState : forall m s, R m s -> st m = bogusDoctypeState -> wk m = true -> plain m = true -> simok s (step_bogusDoctypeState m).
 Proof. sim_state step_bogusDoctypeState. Qed.
 
-Lemma sim_doctypeNameState : forall m s, R m s -> st m = doctypeNameState -> wk m = true -> covered m = true -> simok s (step_doctypeNameState m).
+Lemma sim_doctypeNameState : forall m s, R m s -> st m = doctypeNameState -> wk m = true -> plain m = true -> simok s (step_doctypeNameState m).
 Proof. sim_state step_doctypeNameState. Qed.
 
-Lemma sim_rcdataLessThanSignState : forall m s, R m s -> st m = rcdataLessThanSignState -> wk m = true -> covered m = true -> simok s (step_rcdataLessThanSignState m).
+Lemma sim_rcdataLessThanSignState : forall m s, R m s -> st m = rcdataLessThanSignState -> wk m = true -> plain m = true -> simok s (step_rcdataLessThanSignState m).
 Proof. sim_state step_rcdataLessThanSignState. Qed.
 
-Lemma sim_scriptDataEscapedEndTagOpenState : forall m s, R m s -> st m = scriptDataEscapedEndTagOpenState -> wk m = true -> covered m = true -> simok s (step_scriptDataEscapedEndTagOpenState m).
+Lemma sim_scriptDataEscapedEndTagOpenState : forall m s, R m s -> st m = scriptDataEscapedEndTagOpenState -> wk m = true -> plain m = true -> simok s (step_scriptDataEscapedEndTagOpenState m).
 Proof. sim_state step_scriptDataEscapedEndTagOpenState. Qed.
 
